@@ -10,7 +10,9 @@ from .sexp import Q, dump
 
 FIELD_NAMES = ["id", "name", "userID", "user_name", "URL", "Age", "HTTPServer", "createdAt", "count",
                "Label", "x", "y", "avatar_url", "kind", "Value", "isOK", "n2", "APIKey", "email", "Score", "zip_code",
-               "settings", "setup_done", "getter", "newVal", "sha_256sum", "top_3rd", "utf_8", "v_2x"]
+               "settings", "setup_done", "getter", "newVal", "sha_256sum", "top_3rd", "utf_8", "v_2x",
+               # exported names that are not PascalCase (round 7: the -json shadow struct spelled them differently, bf10dd1)
+               "Home_dir", "HTTP_port", "Max_2nd"]
 COLLIDING_NAMES = ["ID", "Id", "UserID", "Name", "Url"]
 KEYWORD_NAMES = ["Type", "Func", "Range", "Map", "Default", "type_", "Go"]
 EMBED_NAMES = ["Base", "Meta", "inner", "Audit", "Core", "Extra", "node", "Owner"]
@@ -83,12 +85,14 @@ class NewGen:
                     f["set"] = True
                 elif r < 0.5:
                     f["get"] = f["set"] = True
-            if opts.get("json_tags") and self.rng.random() < 0.3:
-                f["json"] = self.rng.choice([name, name.lower(), "j_" + name.lower(), name + ",omitempty", "user_id", "XVal"])
         else:
             # fields of embedded structs: occasionally `_`-prefixed / tagged (finding region)
             if self.rng.random() < opts.get("nested_tagskip", 0.0):
                 f["tagskip"] = True
+        # explicit json tags: on own fields and (round 7, cd682d2) on the fields of embedded structs, which are promoted
+        if opts.get("json_tags") and self.rng.random() < 0.3:
+            f["json"] = self.rng.choice([name, name.lower(), "j_" + name.lower(), name + ",omitempty", "user_id", "XVal",
+                                         "k_%d_%s" % (len(self.used), name.lower())])
         return f
 
     def names(self, k, extra=(), depth=0):
